@@ -98,6 +98,17 @@ def step (d : D) : List String → D × String
       let (st, evs) := flush st
       ({ d with net := st }, s!"{showBool ok} {evs}")
     | _, _, _ => (d, "bad-op")
+  | ["setflag", n] =>
+    match n.toNat? with
+    | some n => ({ d with net := d.net.modNode n (fun nd => { nd with flag := true }) }, "ok")
+    | none => (d, "bad-op")
+  | ["service", n, ip] =>
+    match n.toNat?, parseIp ip with
+    | some n, some ip =>
+      let (st, ok) := requestService fuelMax d.net n ip
+      let (st, evs) := flush st
+      ({ d with net := st }, s!"{showBool ok} {evs}")
+    | _, _ => (d, "bad-op")
   | ["enable", n, i] =>
     match n.toNat?, i.toNat? with
     | some n, some i =>
